@@ -16,9 +16,108 @@ type crashUnit struct {
 	Deletes []string
 }
 
+// sortedMem has MemDB's semantics (iterators snapshot their keys at creation and read values live) but
+// keeps its keys sorted: tm-db's MemDB scans and sorts every key for each iterator, which makes long
+// histories quadratic (iavl opens a database iterator in every SaveVersion).
+type sortedMem struct {
+	mtx  sync.RWMutex
+	vals map[string][]byte
+	keys []string
+}
+
+func newSortedMem() *sortedMem { return &sortedMem{vals: map[string][]byte{}} }
+
+func (m *sortedMem) Get(k []byte) []byte {
+	m.mtx.RLock()
+	defer m.mtx.RUnlock()
+	return m.vals[string(k)]
+}
+func (m *sortedMem) Has(k []byte) bool {
+	m.mtx.RLock()
+	defer m.mtx.RUnlock()
+	_, ok := m.vals[string(k)]
+	return ok
+}
+func (m *sortedMem) Set(k, v []byte) {
+	m.mtx.Lock()
+	defer m.mtx.Unlock()
+	ks := string(k)
+	if _, ok := m.vals[ks]; !ok {
+		i := sort.SearchStrings(m.keys, ks)
+		m.keys = append(m.keys, "")
+		copy(m.keys[i+1:], m.keys[i:])
+		m.keys[i] = ks
+	}
+	if v == nil {
+		v = []byte{}
+	}
+	m.vals[ks] = v
+}
+func (m *sortedMem) Delete(k []byte) {
+	m.mtx.Lock()
+	defer m.mtx.Unlock()
+	ks := string(k)
+	if _, ok := m.vals[ks]; !ok {
+		return
+	}
+	delete(m.vals, ks)
+	i := sort.SearchStrings(m.keys, ks)
+	m.keys = append(m.keys[:i], m.keys[i+1:]...)
+}
+func (m *sortedMem) iter(start, end []byte, reverse bool) dbm.Iterator {
+	m.mtx.RLock()
+	defer m.mtx.RUnlock()
+	lo := sort.SearchStrings(m.keys, string(start))
+	hi := len(m.keys)
+	if end != nil {
+		hi = sort.SearchStrings(m.keys, string(end))
+	}
+	var keys []string
+	if lo < hi {
+		keys = append(keys, m.keys[lo:hi]...)
+	}
+	if reverse {
+		for i, j := 0, len(keys)-1; i < j; i, j = i+1, j-1 {
+			keys[i], keys[j] = keys[j], keys[i]
+		}
+	}
+	return &sortedMemIter{m: m, keys: keys, start: start, end: end}
+}
+func (m *sortedMem) Iterator(s, e []byte) dbm.Iterator        { return m.iter(s, e, false) }
+func (m *sortedMem) ReverseIterator(s, e []byte) dbm.Iterator { return m.iter(s, e, true) }
+
+type sortedMemIter struct {
+	m          *sortedMem
+	keys       []string
+	cur        int
+	start, end []byte
+}
+
+func (it *sortedMemIter) Domain() ([]byte, []byte) { return it.start, it.end }
+func (it *sortedMemIter) Valid() bool              { return it.cur < len(it.keys) }
+func (it *sortedMemIter) Next() {
+	if !it.Valid() {
+		panic("sortedMemIter is invalid")
+	}
+	it.cur++
+}
+func (it *sortedMemIter) Key() []byte {
+	if !it.Valid() {
+		panic("sortedMemIter is invalid")
+	}
+	return []byte(it.keys[it.cur])
+}
+func (it *sortedMemIter) Value() []byte {
+	if !it.Valid() {
+		panic("sortedMemIter is invalid")
+	}
+	return it.m.Get([]byte(it.keys[it.cur]))
+}
+func (it *sortedMemIter) Close() { it.keys = nil }
+
 type crashDB struct {
 	mtx      sync.Mutex
-	mem      *dbm.MemDB
+	mem      *sortedMem
 	units    int  // units issued so far (since last reset)
 	dieAfter int  // -1: never
 	dead     bool // a unit was dropped
@@ -27,7 +126,7 @@ type crashDB struct {
 	nDeletes int // delete operations that reached the disk
 }
 
-func newCrashDB() *crashDB { return &crashDB{mem: dbm.NewMemDB(), dieAfter: -1} }
+func newCrashDB() *crashDB { return &crashDB{mem: newSortedMem(), dieAfter: -1} }
 
 // clone copies the durable content into a fresh, healthy database.
 func (c *crashDB) clone() *crashDB {
